@@ -1,4 +1,4 @@
-import ZvbiModel.Ttx.Lemmas5
+import ZvbiModel.Ttx.Lemmas8
 /-!
 # C03 - transmission errors in Teletext are corrected or contained, never shown as data
 
@@ -222,5 +222,63 @@ theorem x26_continuity (s : St) (mag0 : Nat) (v : View) (hm : mag0 < s.raw.lengt
     (hne : ((process26 s mag0 v).st.rp mag0).page.enh.getD idx t0 ≠ (s.rp mag0).page.enh.getD idx t0) :
     ∃ d, v.g8 0 = some d ∧ (s.rp mag0).numTriplets = ((d * 13 : Nat) : Int) ∧ d * 13 ≤ idx ∧ idx < d * 13 + 13 :=
   process26_enh s mag0 v hm idx t0 hne
+
+/-! ## clause 4: no page is stored under a number that was not received in a header -/
+
+/-- Over every history of packets (any bytes whatever, decoder with or without a Teletext
+    handler): whenever `_vbi_cache_put_page` is called (`Event.put q`), the page number and subpage
+    number of `q` are exactly what the decoder computed (`hdrKey`: Hamming 8/4 decode of address,
+    page number and subcode, header accepted) from some header packet of that history.  Rows, X/26,
+    X/27, X/28, M/29, 8/30 and the table parsers (MOT, MIP, BTT, AIT, MPT, POP, DRCS) can neither
+    store a page nor change the number of a page in progress.
+    Proved by an invariant over all reachable states (`AsmOk`, Lemmas7). -/
+theorem no_foreign_page_number (on : Bool) (ps : List Packet) (q : Page)
+    (h : Event.put q ∈ (run (init.enable on) ps).2) :
+    ∃ p, p ∈ ps ∧ ∃ m, hdrKey p = some (m, q.pgno, q.subno) := by
+  have := (run_ok (init.enable on) [] ps (init_ok on)).2 q h
+  simpa [Sent] using this
+
+/-- non-vacuity: a header followed by a second header of the same magazine stores the first page -/
+example : (run (init.enable true) [f21Tx, f21Tx.set 2 21]).2.any
+    (fun e => match e with | Event.put q => q.pgno == 0x123 && q.subno == 0x2359 | _ => false) = true := by
+  decide +kernel
+
+/-- Hamming 8/4 with up to two inverted bits: corrected (one) or refused (two), never decoded as
+    another value. -/
+theorem two_errors_never_miscorrected (c e : Nat) (hc : IsHam8 c) (he : FewFlips e) :
+    unham8 (c ^^^ e) = none ∨ unham8 (c ^^^ e) = unham8 c := unham8_few c e hc he
+
+/-- ... hence: if the received header `rx` differs from the transmitted header `tx` by at most two
+    bit errors in each of its ten Hamming protected bytes (`HdrChannel`) and the decoder accepts it,
+    then the numbers it computed are the transmitted magazine and page number - and, with repair
+    F21 in place (`ttxFixF21`, regenerated from packet.c), also the transmitted subpage number.
+    Together with `no_foreign_page_number`: no page is ever stored under a page number other than
+    one that was transmitted. -/
+theorem header_numbers_are_transmitted (tx rx : Packet) (hw : WellFormed rx) (hch : HdrChannel tx rx)
+    (m pg sub : Nat) (h : hdrKey rx = some (m, pg, sub)) :
+    ∃ sub', hdrKey tx = some (m, pg, sub') ∧ (ttxFixF21 = true → sub' = sub) :=
+  hdrKey_channel tx rx hw hch m pg sub h
+
+/-- FULL STATEMENT for the subpage number (false on the unrepaired code: `f21Tx`/`f21Rx` above). -/
+def subpage_number_is_transmitted_full : Prop :=
+  ∀ (tx rx : Packet), WellFormed rx → HdrChannel tx rx → ∀ m pg sub,
+    hdrKey rx = some (m, pg, sub) → hdrKey tx = some (m, pg, sub)
+
+theorem subpage_number_is_transmitted_fixed (hf : ttxFixF21 = true) : subpage_number_is_transmitted_full := by
+  intro tx rx hw hch m pg sub h
+  obtain ⟨sub', h1, h2⟩ := hdrKey_channel tx rx hw hch m pg sub h
+  rw [h2 hf] at h1; exact h1
+
+example : HdrChannel f21Tx f21Rx := by
+  intro i hi
+  have : ∀ i < 10, ∃ n < 16, byte f21Tx i = ham8 n := by decide +kernel
+  obtain ⟨n, hn, hb⟩ := this i hi
+  refine ⟨⟨n, hn, hb⟩, ?_⟩
+  by_cases h5 : i = 5
+  · subst h5
+    exact ⟨1 <<< 0 ^^^ 1 <<< 3, Or.inr (Or.inr ⟨0, 3, by decide, by decide, by decide, rfl⟩), by decide +kernel⟩
+  · refine ⟨0, Or.inl rfl, ?_⟩
+    have : ∀ i < 10, i ≠ 5 → byte f21Rx i = byte f21Tx i ^^^ 0 := by decide +kernel
+    exact this i hi h5
 
 end Zvbi.Props.C03
